@@ -768,6 +768,9 @@ class PayloadSK(Payload):
     def decrypt(self, crypto):
         iv = self.ciphertext[:crypto.cipher.block_size]
         ciphertext = self.ciphertext[crypto.cipher.block_size:-crypto.integrity.hash_size]
+        if (len(iv) != crypto.cipher.block_size or len(ciphertext) == 0
+                or len(ciphertext) % crypto.cipher.block_size != 0):
+            raise InvalidSyntax('Invalid length of the encrypted payload')
         decrypted = crypto.cipher.decrypt(crypto.sk_e, bytes(iv), bytes(ciphertext))
         padlen = decrypted[-1]
         return iv, decrypted[:-1 - padlen]
